@@ -244,7 +244,7 @@ impl SubWorld {
 		let mut cmd = cmd;
 		let mut send_slot = None;
 		match &mut cmd {
-			Cmd::Send(n) | Cmd::TrySend(n) => {
+			Cmd::Send(n) | Cmd::TrySend(n) | Cmd::SendTimeout(n) => {
 				self.n += 1;
 				*n = self.n;
 				let after_close = self.insts[inst].close_observed || self.insts[inst].unsubscribed_observed();
@@ -509,6 +509,7 @@ pub fn arb_cmd_sends() -> BoxedStrategy<Cmd> {
 		1 => Just(Cmd::Reject(-32077)),
 		14 => Just(Cmd::Send(0)),
 		4 => Just(Cmd::TrySend(0)),
+		4 => Just(Cmd::SendTimeout(0)),
 		1 => Just(Cmd::CloneSink),
 		1 => (0u8..4).prop_map(Cmd::DropSink),
 		2 => Just(Cmd::IsClosed),
